@@ -307,26 +307,44 @@ where
     T: Service<Publish, Response = Either<Publish, PublishAck>, Error = E>,
     C: Service<ProtocolMessage, Response = ProtocolMessageAck, Error = DispatcherError<E>>,
 {
+    let qos2 = pkt.qos() == crate::types::QoS::ExactlyOnce;
     let ack = match ctx.call(svc, pkt).await.map_err(DispatcherError::Service)? {
         Either::Right(ack) => ack,
         Either::Left(pkt) => {
             let (pkt, payload) = pkt.into_inner();
-            return inner
+            let res = inner
                 .control_pkt(ProtocolMessage::publish(pkt, payload, packet_size), packet_id)
-                .await;
+                .await?;
+            return if qos2 && let Some(Encoded::Packet(Packet::PublishAck(ack))) = res {
+                // QoS2 message is acknowledged with PUBREC, packet id is in use until PUBREL
+                if u8::from(ack.reason_code) < 0x80 {
+                    inner.info.borrow_mut().inflight.insert(ack.packet_id);
+                }
+                Ok(Some(Encoded::Packet(Packet::PublishReceived(ack))))
+            } else {
+                Ok(res)
+            };
         }
     };
 
     if let Some(id) = NonZeroU16::new(packet_id) {
         log::trace!("Sending publish ack for {packet_id:?} id");
-        inner.info.borrow_mut().inflight.remove(&id);
         let ack = codec::PublishAck {
             packet_id: id,
             reason_code: ack.reason_code,
             reason_string: ack.reason_string,
             properties: ack.properties,
         };
-        Ok(Some(Encoded::Packet(Packet::PublishAck(ack))))
+        if qos2 {
+            // packet id is in use until PUBREL is received, unless PUBREC is negative
+            if u8::from(ack.reason_code) >= 0x80 {
+                inner.info.borrow_mut().inflight.remove(&id);
+            }
+            Ok(Some(Encoded::Packet(Packet::PublishReceived(ack))))
+        } else {
+            inner.info.borrow_mut().inflight.remove(&id);
+            Ok(Some(Encoded::Packet(Packet::PublishAck(ack))))
+        }
     } else {
         Ok(None)
     }
